@@ -117,4 +117,8 @@ let run_case (line : string) : string =
              emit ("c:[" ^ join "," (Stdlib.List.map (fun i -> "#" ^ string_of_int i) (sort_ints l)) ^ "]"))
     | _ -> failwith ("bad op: " ^ join " " toks) in
   Stdlib.List.iter (fun s -> do_op (words s)) (split_on ';' line);
-  join " " (Stdlib.List.rev !out)
+  (* model ||| spec: the PROPERTY speaks about the ids (a returning source is given the id it had, no second id);
+     which fields an entry holds is the model's account of the code (the table code_sites), not demanded by the property *)
+  let toks = Stdlib.List.rev !out in
+  let spec = Stdlib.List.map (fun t -> if String.length t >= 2 && String.sub t 0 2 = "m:" then "*" else t) toks in
+  join " " toks ^ " ||| " ^ join " " spec
